@@ -50,6 +50,58 @@ def sign_idiom(n):
     return None
 
 
+def sign_form(n):
+    """operands [E, ...] if n is an expression over sign tests of one value E (E < 0, E > 0, 0 < E, E == 0 ...), constants,
+    + - and ?: whose value is -1 / 0 / 1 for a negative / zero / positive E (abstract evaluation over the sign domain:
+    covers the nested conditional, (E > 0) - (E < 0), and any other arrangement); else None"""
+    ops = []
+
+    def ev(m, sgn):
+        s = X.strip(m)
+        c = X.const_val(s)
+        if c is not None:
+            return c
+        k = s.get("k")
+        if k == "bin" and s.get("op") in ("<", ">", "<=", ">=", "==", "!="):
+            l, r = s["ch"]
+            op = s["op"]
+            if X.const_val(r) == 0 and X.const_val(l) is None:
+                e = l
+            elif X.const_val(l) == 0 and X.const_val(r) is None:
+                e = r
+                op = {"<": ">", ">": "<", "<=": ">=", ">=": "<="}.get(op, op)
+            else:
+                return None
+            ops.append(e)
+            return int({"<": sgn < 0, ">": sgn > 0, "<=": sgn <= 0, ">=": sgn >= 0, "==": sgn == 0, "!=": sgn != 0}[op])
+        if k == "bin" and s.get("op") in ("+", "-"):
+            a, b = ev(s["ch"][0], sgn), ev(s["ch"][1], sgn)
+            if a is None or b is None:
+                return None
+            return a + b if s["op"] == "+" else a - b
+        if k == "un" and s.get("op") in ("-", "!"):
+            a = ev(s["ch"][0], sgn)
+            if a is None:
+                return None
+            return -a if s["op"] == "-" else int(not a)
+        if k == "cond":
+            c = ev(s["ch"][0], sgn)
+            if c is None:
+                return None
+            return ev(s["ch"][1] if c else s["ch"][2], sgn)
+        return None
+
+    for sgn in (-1, 0, 1):
+        if ev(n, sgn) != sgn:
+            return None
+    if not ops:
+        return None
+    keys = {X.render(X.strip(o)) for o in ops}
+    if len(keys) != 1 or any(list(X.calls_in(o)) for o in ops):
+        return None
+    return list({id(o): o for o in ops}.values())
+
+
 def operand_type_problem(op):
     """describe why `op < 0` cannot order correctly, or None"""
     # outermost explicit/implicit casts
@@ -231,7 +283,7 @@ def check_comp(chk, prog, summ, f, slot_comp, nullable):
         s = X.strip(v)
         if X.const_val(v) is not None:
             return "const" if X.const_val(v) in CMP_CONSTS else "bad:constant %s is not an ordering value" % X.const_val(v)
-        si = sign_idiom(v)
+        si = sign_idiom(v) or sign_form(v)
         if si:
             for op in si:
                 pr = operand_type_problem(op)
